@@ -11,7 +11,7 @@ from . import poolmodel as pm
 TRUSTED = ["ghost socket contract extended with a non-Exception BaseException outcome at every socket call"]
 ASSUMPTIONS = ["interruptions are raised inside socket calls (as the statement says); signals delivered between bytecodes are not modelled"]
 NOT_COVERED = ["HashClient wrappers (they add no handler of their own around the inner client)"]
-BUDGET = {"quick": 30, "thorough": 120}
+BUDGET = {"quick": 40, "thorough": 120}
 FILTER_BY_PROPERTY = True
 REPLAY_UNDECIDED = False
 
